@@ -76,6 +76,10 @@ type DefaultFanController struct {
 
 	// offset applied to the actual minPwm of the fan to ensure "neverStops" constraint
 	minPwmOffset int
+
+	// the last output of the control loop, in the [0..255] range of the curve,
+	// i.e. **before** mapping it to the [minPwm, maxPwm] range of the fan
+	lastControlLoopOutput *int
 }
 
 func NewFanController(
@@ -439,8 +443,15 @@ func (f *DefaultFanController) calculateTargetPwm() (int, error) {
 		ui.Fatal("Unable to calculate optimal PWM value for %s: %v", fan.GetId(), err)
 	}
 
+	// the control loop operates on the [0..255] range of the curve, so feed it its own
+	// previous output instead of the value that was already mapped to the range of the fan
+	current := lastSetPwm
+	if f.lastControlLoopOutput != nil {
+		current = *f.lastControlLoopOutput
+	}
+
 	// the target pwm, approaching the actual target smoothly
-	target = f.controlLoop.Cycle(target, lastSetPwm)
+	target = f.controlLoop.Cycle(target, current)
 
 	// ensure target value is within bounds of possible values
 	if target > fans.MaxPwmValue {
@@ -450,6 +461,8 @@ func (f *DefaultFanController) calculateTargetPwm() (int, error) {
 		ui.Warning("Tried to set out-of-bounds PWM value %d on fan %s", target, fan.GetId())
 		target = fans.MinPwmValue
 	}
+	controlLoopOutput := target
+	f.lastControlLoopOutput = &controlLoopOutput
 
 	// map the target value to the possible range of this fan
 	maxPwm := fan.GetMaxPwm()
